@@ -48,6 +48,15 @@ CHECKS = {
  "C10": dict(tech="exhaustive enumeration of cell populations (n over a list crossing 128 and 256) x requested-id patterns x placements x kinds x options; marker write/read-back executed on reference AVM",
              text="Programs with n simultaneously live cells for every n in the list, with automatic / requested / colliding / duplicate slot ids, spread over main and subroutines, as ScratchVars, ABI values (frame locals beyond 128), MaybeValue outputs and DynamicScratchVar aliases: every marker must survive, requested ids must be the ones index() sees, >256 cells or duplicate ids must be rejected.",
              note="reference AVM scratch/frame semantics", ref="2/C10"),
+ "C08": dict(tech="exhaustive enumeration of router configurations (all MethodConfigs, all bare-call configurations, method pairs, clear-state variants) x full call alphabet; compiled router executed on reference AVM vs a documentation-derived lookup table",
+             text="Every MethodConfig of one method (1023), every bare-call configuration (1024), every ordered pair of methods over a reduced config alphabet, three-method routers, empty routers and six clear-state action kinds: each compiled with the real Router at several versions and called with every (selector or none / unknown / truncated / over-long, OnCompletion, create or not) combination; the handler logged must be exactly the one the registration table selects, everything else must be rejected; the clear program must run exactly the given action.",
+             note="reference AVM; ClearState never reaches an approval program on chain", ref="2/C08"),
+ "C09": dict(tech="exhaustive enumeration of method signature families x value variants; transaction groups built by algosdk's AtomicTransactionComposer executed on the reference AVM; logs vs reference encodings",
+             text="Parameter lists of every length 0..17 by position patterns (the 14/15/16/17 tuple cutoff fully), all lists of length <= 2 (3) over five plain types, transaction and reference parameters at every position of lists up to length 4, void/uint64/string/tuple results: the method logs each received argument re-encoded, which must equal the client's reference encoding; one return log with the 0x151f7c75 prefix; a wrong transaction type must fail; the ABI contract's signatures/selectors must be the ones the approval program dispatches on.",
+             note="algosdk ATC + abi codec as the independent client; reference AVM", ref="2/C09"),
+ "C14": dict(tech="exhaustive enumeration of method signature families x value variants x argument forms; inner group recorded by the reference AVM decoded by an independent callee-side ARC-4 decoder",
+             text="For C09's signature families, ExecuteMethodCall with ABI values and with pre-encoded expressions, with and without extra fields: the recorded inner group must decode (selector, per-argument app args with arguments 15+ as one tuple, references through foreign arrays, transaction arguments as the preceding inner transactions) to the arguments given; ill-typed arguments must be rejected at build time.",
+             note="algosdk.abi as decoder; reference AVM inner transaction model", ref="2/C14"),
 }
 NOT_YET = {}
 props = [json.loads(l) for l in open(os.path.join(HERE, "properties.jsonl"))]
